@@ -474,12 +474,7 @@ func runC10R3(c *eng.Ctx, r *eng.RuleCtx) {
 		if !(okConst && okRaw) {
 			// (C) one store whose value is decided per scenario: with the raw value assumed empty everything that can
 			// reach the store is the constant, with it assumed non-empty everything is the raw value
-			var stores []*eng.GNode
-			for _, n := range g.Nodes {
-				if as, ok := n.Node.(*ast.AssignStmt); ok && len(as.Lhs) == 1 && len(as.Rhs) == 1 && eng.IsField(info, as.Lhs[0], eff) {
-					stores = append(stores, n)
-				}
-			}
+			stores := storesOfField(info, f.Decl.Body, eff)
 			isRaw := func(x ast.Expr) bool {
 				sx, isS := ast.Unparen(x).(*ast.SelectorExpr)
 				return isS && sx.Sel.Name == s.rawField && !eng.IsField(info, x, eff)
@@ -499,9 +494,9 @@ func runC10R3(c *eng.Ctx, r *eng.RuleCtx) {
 					return false
 				}
 			}
-			if len(stores) == 1 {
-				st := stores[0]
-				rhs := st.Node.(*ast.AssignStmt).Rhs[0]
+			if len(stores) == 1 && g.NodeOf(stores[0].Stmt) != nil {
+				st := g.NodeOf(stores[0].Stmt)
+				rhs := stores[0].Val
 				all := func(empty bool, want func(ast.Expr) bool) bool {
 					vals, reachable, ok := reachingValues(g, info, f.Decl.Body, st, rhs, scenario(empty))
 					if !reachable || !ok || len(vals) == 0 {
@@ -571,14 +566,11 @@ func runC10R3(c *eng.Ctx, r *eng.RuleCtx) {
 			eff := p.Field(pkgHTypes, "CommonBindingConfig", "AllowFailure")
 			_ = et
 			ok := false
-			eng.InspectNoLit(f.Decl.Body, func(n ast.Node) bool {
-				if as, isA := n.(*ast.AssignStmt); isA && len(as.Lhs) == 1 && eng.IsField(info, as.Lhs[0], eff) {
-					if sx, isS := ast.Unparen(as.Rhs[0]).(*ast.SelectorExpr); isS && sx.Sel.Name == "AllowFailure" {
-						ok = true
-					}
+			for _, st := range storesOfField(info, f.Decl.Body, eff) {
+				if sx, isS := ast.Unparen(st.Val).(*ast.SelectorExpr); isS && sx.Sel.Name == "AllowFailure" {
+					ok = true
 				}
-				return true
-			})
+			}
 			r.Check(ok, f.Key+" "+et+".AllowFailure", f.Decl.Pos(), "copied from the raw binding", "allowFailure of a kubernetes binding is not copied from the declared value")
 		}
 		// monitor keeps KeepFullObjectsInMemory in sync
@@ -601,14 +593,11 @@ func runC10R3(c *eng.Ctx, r *eng.RuleCtx) {
 		info := f.Pkg.TypesInfo
 		eff := p.Field(pkgHTypes, "CommonBindingConfig", "AllowFailure")
 		ok := false
-		eng.InspectNoLit(f.Decl.Body, func(n ast.Node) bool {
-			if as, isA := n.(*ast.AssignStmt); isA && len(as.Lhs) == 1 && eng.IsField(info, as.Lhs[0], eff) {
-				if sx, isS := ast.Unparen(as.Rhs[0]).(*ast.SelectorExpr); isS && sx.Sel.Name == "AllowFailure" {
-					ok = true
-				}
+		for _, st := range storesOfField(info, f.Decl.Body, eff) {
+			if sx, isS := ast.Unparen(st.Val).(*ast.SelectorExpr); isS && sx.Sel.Name == "AllowFailure" {
+				ok = true
 			}
-			return true
-		})
+		}
 		r.Check(ok, f.Key+" ScheduleConfig.AllowFailure", f.Decl.Pos(), "copied from the raw binding", "allowFailure of a schedule binding is not copied from the declared value")
 	}
 }
